@@ -61,3 +61,18 @@ Example C10_returning_nonvacuous :
   render_query (set_with_alias true (set_subquery true (set_with_namespace true (ctx_of BPostgreSQL)))) None q
     = Ok (L "(DELETE FROM ""t"" WHERE ""b""=1 RETURNING ""id"",""c"" ""rc"") ""sq""", None).
 Proof. vm_compute. repeat split. Qed.
+
+(* the body of a CTE (rendered by the WITH clause with both position flags off): exactly the stand-alone text - no parentheses of its own, no alias -
+   whatever context the outer statement renders its WITH clause in *)
+Theorem C10_cte_body_is_standalone : forall (c : ctx) (p : pz) (q : query),
+  selectable q = true ->
+  render_query (set_with_alias false (set_subquery false c)) p q = render_query (standalone c) p q.
+Proof.
+  intros c p q Hs. rewrite (embedded_is_standalone (set_with_alias false (set_subquery false c)) p q Hs).
+  replace (standalone (set_with_alias false (set_subquery false c))) with (standalone c) by (destruct c; reflexivity).
+  destruct (render_query (standalone c) p q) as [[s p']|e]; [|reflexivity].
+  unfold embed. replace (subquery (set_with_alias false (set_subquery false c))) with false by (destruct c; reflexivity).
+  replace (with_alias (set_with_alias false (set_subquery false c))) with false by (destruct c; reflexivity).
+  rewrite wrap_id. destruct (complete q); reflexivity.
+Qed.
+Print Assumptions C10_cte_body_is_standalone.
